@@ -306,6 +306,103 @@ func runRefactorings(id, repo, root string) map[string]any {
 	}
 }
 
+// runSystematic samples the systematic mutants (mutgen.go) of the functions this property's rules analysed, applies
+// each to a scratch copy and runs the property's quick rules on it. It measures how much of the analysed code the rules
+// are sensitive to; like the other self-tests it never changes the exit code. The sample is deterministic (stride over
+// the site list, offset by VERIF_SEED).
+func runSystematic(c *Ctx, id, repo, root string, seed int64, max int) map[string]any {
+	self, err := os.Executable()
+	if err != nil {
+		return nil
+	}
+	touched := map[*Func]bool{}
+	for f := range c.funcs {
+		if f != nil {
+			touched[f.Root()] = true
+		}
+	}
+	sites := mutSites(c.P, touched, repo)
+	if len(sites) == 0 {
+		return nil
+	}
+	stride := len(sites)/max + 1
+	var sample []mutSite
+	for i := int(seed) % stride; i < len(sites) && len(sample) < max; i += stride {
+		if i >= 0 {
+			sample = append(sample, sites[i])
+		}
+	}
+	tmp := os.Getenv("TMPDIR")
+	if tmp == "" {
+		tmp = "/tmp"
+	}
+	type res struct{ status, what string }
+	out := make([]res, len(sample))
+	var wg sync.WaitGroup
+	sem := make(chan struct{}, 6)
+	for i, m := range sample {
+		wg.Add(1)
+		go func(i int, m mutSite) {
+			defer wg.Done()
+			sem <- struct{}{}
+			defer func() { <-sem }()
+			what := fmt.Sprintf("%s %s:%d %s", m.Op, m.File, m.Line, firstLine(m.Old))
+			dir, err := os.MkdirTemp(tmp, "mcpcheck-sys-")
+			if err != nil {
+				out[i] = res{"skipped", what}
+				return
+			}
+			defer os.RemoveAll(dir)
+			if err := copyTree(repo, dir); err != nil {
+				out[i] = res{"skipped", what}
+				return
+			}
+			path := filepath.Join(dir, m.File)
+			src, err := os.ReadFile(path)
+			if err != nil || m.End > len(src) || string(src[m.Start:m.End]) != m.Old {
+				out[i] = res{"skipped", what}
+				return
+			}
+			mut := append(append(append([]byte{}, src[:m.Start]...), []byte(m.New)...), src[m.End:]...)
+			if err := os.WriteFile(path, mut, 0o644); err != nil {
+				out[i] = res{"skipped", what}
+				return
+			}
+			cmd := exec.Command(self, "-property", id, "-tier", "quick", "-repo", dir, "-root", root, "-no-evidence", "-whole")
+			cmd.Env = os.Environ()
+			o, _ := cmd.CombinedOutput()
+			switch {
+			case strings.Contains(string(o), "load failure"):
+				out[i] = res{"does-not-type-check", what}
+			case strings.Contains(string(o), "MUTANT-REPORT "):
+				out[i] = res{"reported", what}
+			default:
+				out[i] = res{"silent", what}
+			}
+		}(i, m)
+	}
+	wg.Wait()
+	cnt := map[string]int{}
+	var silent []string
+	for _, r := range out {
+		cnt[r.status]++
+		if r.status == "silent" && len(silent) < 8 {
+			silent = append(silent, r.what)
+		}
+	}
+	return map[string]any{
+		"what":                        "systematic single-edit mutants (delete a statement or a return guard, negate a condition, drop a conjunct) of the functions this property's rules analysed; a deterministic sample is applied to scratch copies and the quick rules are run on each",
+		"sites_in_analysed_functions": len(sites),
+		"sampled":                     len(sample),
+		"reported":                    cnt["reported"],
+		"silent":                      cnt["silent"],
+		"does_not_type_check":         cnt["does-not-type-check"],
+		"skipped":                     cnt["skipped"],
+		"silent_examples":             silent,
+		"note":                        "silent mutants are not violations: most edit logging, error texts or behaviour outside this property; the number bounds from above how much of the analysed code the rules are blind to",
+	}
+}
+
 func firstLine(s string) string {
 	if i := strings.IndexByte(s, '\n'); i >= 0 {
 		return s[:i]
